@@ -34,7 +34,11 @@ def base_docs():
                        TYPE("a2", [MK("+", "integer", attribute="wm")], implements="abs1"),
                        TYPE("box", [MSEC("abs1", "*", "items"), SEC("abs1", "fixed")])],
                 children=[MSEC("box", "+", "boxes"), SEC("abs1", "*", "single"), K("k-top")])
-    return [d1, d2, d3]
+    # a schema whose key type does not fold case: handler names are still matched after basic-key normalisation
+    d4 = SCHEMA(keytype="identifier",
+                types=[TYPE("t1", [K("Key1"), MK("more", "integer")], keytype="identifier")],
+                children=[K("Top", "boolean"), MSEC("t1", "*", "ones"), SEC("t1", "+", "named")])
+    return [d1, d2, d3, d4]
 
 
 def with_handlers(rng, doc, p):
@@ -189,7 +193,7 @@ def run(chk):
             d = with_handlers(rng, b, rng.choice([0.2, 0.5, 0.8, 1.0]))
             if schemas.valid_doc(d) is not None:
                 docs.append(d)
-    chk.rule = ("3 base schemas (nesting depth 3, multisections, abstract slots, wrapping section datatypes) x %d random "
+    chk.rule = ("4 base schemas (nesting depth 3, multisections, abstract slots, wrapping section datatypes, a case-sensitive key type) x %d random "
                 "placements of handler attributes on subsets of all items and the schema x %d random texts (conforming "
                 "generator; rejected ones count as trivial) x handler maps {complete (with upper-cased names), each name "
                 "missing, each name mapped to None, each name duplicated in another case, each name supplied only in two non-normalised spellings}; non-trivial = accepted text with "
